@@ -62,8 +62,8 @@ class PyFatFS(FS):
         if utc:
             self.tz = datetime.timezone.utc
         else:
-            self.tz = datetime.datetime.now(datetime.timezone.utc)
-            self.tz = self.tz.astimezone().tzinfo
+            # Local time of this process, including its DST rules
+            self.tz = None
 
     def close(self):
         """Clean up open handles."""
@@ -106,13 +106,23 @@ class PyFatFS(FS):
 
         info = {"basic": {"name": repr(entry),
                           "is_dir": entry.is_directory()},
-                "details": {"accessed": entry.get_atime().timestamp(),
-                            "created": entry.get_ctime().timestamp(),
+                "details": {"accessed": self.__timestamp(entry.get_atime()),
+                            "created": self.__timestamp(entry.get_ctime()),
                             "metadata_changed": None,
-                            "modified": entry.get_mtime().timestamp(),
+                            "modified": self.__timestamp(entry.get_mtime()),
                             "size": entry.filesize,
                             "type": self.gettype(path)}}
         return Info(info)
+
+    def __timestamp(self, dt: datetime.datetime) -> float:
+        """Convert a FAT date/time to seconds since the epoch.
+
+        The fields on disk are broken-down time in the time zone the
+        filesystem has been opened with (UTC, or the local time zone).
+        """
+        if self.tz is not None:
+            dt = dt.replace(tzinfo=self.tz)
+        return dt.timestamp()
 
     def getmeta(self, namespace=u'standard'):
         """Get generic filesystem metadata.
@@ -584,5 +594,5 @@ class PyFatBytesIOFS(PyFatFS):
         if utc:
             self.tz = datetime.timezone.utc
         else:
-            self.tz = datetime.datetime.now(datetime.timezone.utc)
-            self.tz = self.tz.astimezone().tzinfo
+            # Local time of this process, including its DST rules
+            self.tz = None
